@@ -245,9 +245,13 @@ fn hot_reloading_thread(
                 Ok(CacheMessage::Ptr(ptr, reloader, token)) => {
                     // Safety: The received pointer is guaranteed to
                     // be valid until we reply back
+                    #[cfg(assets_manager_verif)]
+                    detsim::probe("pass_begin", token as u64);
                     unsafe {
                         cache.update_if_local(ptr.as_ref(), reloader.as_ref());
                     }
+                    #[cfg(assets_manager_verif)]
+                    detsim::probe("pass_end", token as u64);
                     answers.notify(token);
                 }
                 Ok(CacheMessage::Static(asset_cache, reloader)) => {
